@@ -461,31 +461,31 @@ class Sym:
         elif len(ds) != 1:
             r = ('phi', l) if ds else ('unknown', l)
         else:
-            d = ds[0]
-            if d[0] == 'call':
-                r = ('call', d[1])
-            else:
-                rv = d[3]
-                k = rv['k']
-                if k == 'use':
-                    r = self.operand(rv['o'], depth + 1)
-                elif k in ('ref', 'rawptr'):
-                    # a reference to a place denotes the place (we only care which object it is)
-                    r = self.place(rv['p'], depth + 1)
-                elif k == 'un' and rv['op'] == 'Not':
-                    r = ('not', self.operand(rv['o'], depth + 1))
-                elif k == 'disc':
-                    r = ('disc', self.place(rv['p'], depth + 1), rv.get('enum'), rv.get('vars'))
-                elif k == 'bin':
-                    r = ('cmp', rv['op'], self.operand(rv['o'][0], depth + 1), self.operand(rv['o'][1], depth + 1))
-                elif k == 'cast':
-                    r = self.operand(rv['o'], depth + 1)
-                elif k == 'agg':
-                    r = ('agg', rv['a'], rv['v'], d[1], d[2])
-                else:
-                    r = ('unknown', l)
+            r = self.def_term(ds[0], l, depth)
         self.memo[l] = r
         return r
+
+    def def_term(self, d, l, depth=0):
+        if d[0] == 'call':
+            return ('call', d[1])
+        rv = d[3]
+        k = rv['k']
+        if k == 'use':
+            return self.operand(rv['o'], depth + 1)
+        if k in ('ref', 'rawptr'):
+            # a reference to a place denotes the place (we only care which object it is)
+            return self.place(rv['p'], depth + 1)
+        if k == 'un' and rv['op'] == 'Not':
+            return ('not', self.operand(rv['o'], depth + 1))
+        if k == 'disc':
+            return ('disc', self.place(rv['p'], depth + 1), rv.get('enum'), rv.get('vars'))
+        if k == 'bin':
+            return ('cmp', rv['op'], self.operand(rv['o'][0], depth + 1), self.operand(rv['o'][1], depth + 1))
+        if k == 'cast':
+            return self.operand(rv['o'], depth + 1)
+        if k == 'agg':
+            return ('agg', rv['a'], rv['v'], d[1], d[2])
+        return ('unknown', l)
 
     # canonical, human-readable subject for a term
     def describe(self, term, depth=0):
@@ -777,6 +777,19 @@ def _facts_for(fn, S, term, vals, mode, depth=0):
         if term[2][0] != '@Continue':
             out.append(Fact('call', cs, S.describe(base), vals, term=base))
             return out
+    if k == 'phi' and fn.local_ty(term[1]) == 'bool' and term[1] not in S.mut_borrowed():
+        # `let x = a && f();` : x is assigned a constant on the short-circuit arm and the call result on
+        # the other. An edge that excludes every constant assignment is an edge about the other one.
+        ambiguous = False
+        nonconst = []
+        for d in fn.defs.get(term[1], []):
+            if d[0] == 'stmt' and d[3]['k'] == 'use' and d[3]['o'][0] == 'k' and isinstance(d[3]['o'][2], bool):
+                if ('true' if d[3]['o'][2] else 'false') in vals:
+                    ambiguous = True
+            else:
+                nonconst.append(d)
+        if not ambiguous and len(nonconst) == 1:
+            out.extend(_facts_for(fn, S, S.def_term(nonconst[0], term[1], depth + 1), vals, mode, depth + 1))
     if k in ('place', 'arg', 'phi', 'unknown'):
         out.append(Fact('place', None, S.describe(term), vals, term=term))
         # a field of the result of a call is also a (weaker) fact about the call: comparison-like
@@ -1763,3 +1776,20 @@ def accepted_values(fn, param=1):
             if can_ret:
                 acc.add('*' if label == 'otherwise' else int(label))
     return acc, found
+
+
+def discard_sites_generic(facts, err_suffixes):
+    out = []
+    for f in facts.fn_list:
+        for c in f.calls:
+            if f.blocks[c.bb]['c']:
+                continue
+            et = result_err_type(c.t.get('dty', ''))
+            if et is None or not any(et == e or et.endswith('::' + e) for e in err_suffixes):
+                continue
+            d = c.t['d']
+            if d[1] or d[0] == 0:
+                continue
+            if is_discarded(f, d[0]):
+                out.append(c)
+    return out
